@@ -148,11 +148,24 @@ Fixpoint retained_obs (ops : list (sop Z Z Z * bool)) (res : list Z) : list Z :=
 
 (* under write failures: at most one delivered envelope carries header tokens,
    and then all the retained ones; at most one trailer envelope *)
+(* the first call that marks the headers sent, from the API results alone, and
+   whether its write succeeded: SendHeader accepted (0), SendMsg (always marks),
+   SendTrailer not refused (not 2) *)
+Fixpoint first_flush (ops : list (sop Z Z Z * bool)) (res : list Z) : option bool :=
+  match ops, res with
+  | (SendHeader _, _) :: o, 0 :: r => Some true
+  | (SendMsg _, wok) :: o, _ :: r => Some wok
+  | (SendTrailer _, wok) :: o, c :: r => if c =? 2 then first_flush o r else Some wok
+  | _ :: o, _ :: r => first_flush o r
+  | _, _ => None
+  end.
+
 Definition spec_faults (ops : list (sop Z Z Z * bool)) (res : list Z) (envs : list (Z * list Z * list Z)) : bool :=
-  (match filter (fun e => match snd (fst e) with [] => false | _ => true end) envs with
-   | [] => true
-   | [e] => list_eqb Z.eqb (snd (fst e)) (retained_obs ops res)
-   | _ => false
+  (match filter (fun e => match snd (fst e) with [] => false | _ => true end) envs, first_flush ops res with
+   | [], Some true => match retained_obs ops res with [] => true | _ => false end   (* the flush was delivered: so were the headers *)
+   | [], _ => true
+   | [e], Some true => list_eqb Z.eqb (snd (fst e)) (retained_obs ops res)
+   | _, _ => false
    end)
   && Nat.leb (length (filter (fun e => Z.eqb (fst (fst e)) 2) envs)) 1.
 
